@@ -101,7 +101,9 @@ func queryLabel(q string) string {
 }
 
 func c07Once(e *env, c *Case, o *outcome, md protoreflect.MessageDescriptor, fds []protoreflect.FieldDescriptor, exp, whole proto.Message) bool {
+	e.rec.setStreamMode(c.Handler)
 	resp, calls := serve(e, c.Req)
+	e.rec.setStreamMode("")
 	if resp.Wedged {
 		o.inconcl = "request did not return within the watchdog"
 		return false
@@ -135,6 +137,15 @@ func c07Once(e *env, c *Case, o *outcome, md protoreflect.MessageDescriptor, fds
 				break
 			}
 		}
+		if c.Handler != "" {
+			by += ":handler=" + c.Handler
+		}
+		if ct := c.Req.Header["Content-Type"]; len(ct) > 0 && strings.HasPrefix(by, "body") {
+			mt, _, _ := strings.Cut(ct[0], ";")
+			if mt != "application/json" && mt != "application/protobuf" && mt != "application/octet-stream" {
+				by += ":" + mt
+			}
+		}
 		o.add("c07:path-bound-overridden:by="+by, fmt.Sprintf("rule %s %s body=%q: %s %s?%s (competing %s): path-bound field %s was captured as %q but the handler received %s (whole message: %s)",
 			c.Rule.Verb, c.Rule.Tmpl, c.Rule.Body, c.Req.Verb, c.Req.Path, queryLabel(c.Req.RawQuery), c.Via, c.Field, c.Text, jsonOf(got), jsonOf(calls[0].msg)))
 		return false
@@ -150,7 +161,13 @@ func c07Once(e *env, c *Case, o *outcome, md protoreflect.MessageDescriptor, fds
 
 var (
 	c07QueryVariants = []string{"none", "proto-name", "json-name", "twice", "before-other", "after-other"}
-	c07BodyVariants  = []string{"none", "json", "protobuf", "json+gzip", "json-unrelated", "protobuf-unrelated"}
+	c07BodyVariants  = []string{"none", "json", "protobuf", "json+gzip", "json-unrelated", "protobuf-unrelated",
+		// other request syntaxes naming the field: whatever the tree accepts must
+		// not override the path, whatever it refuses is no claim
+		"form", "form-charset", "multipart", "text-plain", "json-charset"}
+
+	// streaming rules: how the handler obtains the first message
+	c07StreamModes = map[string][]string{"client": {"", "as-body-reader"}, "bidi": {"", "as-body-reader"}, "server": {"", "as-body-writer"}}
 )
 
 // benignField finds a string field that is neither path-bound nor part of the
@@ -472,9 +489,54 @@ func (g *gen) c07Case(p *plan, v pathVar, idx int, qv, bv string, ex c07Extra) (
 		}
 	}
 	q.RawQuery = encodeQuery(query)
-	if bv != "none" {
+	rawUpload := p.body != nil && p.body[len(p.body)-1].Message().FullName() == "google.api.HttpBody"
+	switch {
+	case bv == "none":
+	case rawUpload:
+		// the body is the raw upload: it cannot name a field
+		if !strings.HasSuffix(bv, "-unrelated") {
+			return nil, nil
+		}
+		q.Body = []byte(strings.Repeat("raw upload bytes ", 1+g.n%40))
+		q.Header = map[string][]string{"Content-Type": {[]string{"image/jpeg", "application/octet-stream", "text/plain"}[g.n%3]}}
+	case bv == "form" || bv == "form-charset" || bv == "multipart" || bv == "text-plain":
+		inBody := p.rule.Body == "*" || (p.body != nil && strings.HasPrefix(v.field, p.bodyPath()+"."))
+		if p.rule.Body == "" || !inBody || ex.siblings+ex.many+ex.keys > 0 {
+			return nil, nil
+		}
+		Qb, err := other(5)
+		if err != nil {
+			return nil, err
+		}
+		c.Compete["body"] = Qb
+		rel := v.fds
+		if p.body != nil {
+			rel = v.fds[len(p.body):]
+		}
+		key := keyOf(rel, g.n%2 == 0)
+		pairs := []kv{{key, Qb}}
+		switch bv {
+		case "multipart":
+			q.Body = []byte("--vfb\r\nContent-Disposition: form-data; name=\"" + key + "\"\r\n\r\n" + Qb + "\r\n--vfb--\r\n")
+			q.Header = map[string][]string{"Content-Type": {"multipart/form-data; boundary=vfb"}}
+		case "text-plain":
+			q.Body = []byte(key + "=" + Qb)
+			q.Header = map[string][]string{"Content-Type": {"text/plain"}}
+		case "form-charset":
+			q.Body = []byte(encodeQuery(pairs))
+			q.Header = map[string][]string{"Content-Type": {"application/x-www-form-urlencoded; charset=UTF-8"}}
+		default:
+			q.Body = []byte(encodeQuery(pairs))
+			q.Header = map[string][]string{"Content-Type": {"application/x-www-form-urlencoded"}}
+		}
+	}
+	if bv != "none" && q.Body == nil {
 		if p.rule.Body == "" {
 			return nil, nil
+		}
+		jsonCharset := bv == "json-charset"
+		if jsonCharset {
+			bv = "json"
 		}
 		inBody := p.rule.Body == "*" || (p.body != nil && strings.HasPrefix(v.field, p.bodyPath()+"."))
 		unrelated := strings.HasSuffix(bv, "-unrelated")
@@ -529,6 +591,10 @@ func (g *gen) c07Case(p *plan, v pathVar, idx int, qv, bv string, ex c07Extra) (
 			return nil, err
 		}
 		q.Header = enc.header()
+		if jsonCharset {
+			q.Header["Content-Type"] = []string{"application/json; charset=utf-8"}
+			bv = "json-charset"
+		}
 	}
 	g.n++
 	c.Req = q
@@ -546,7 +612,7 @@ func (g *gen) c07Case(p *plan, v pathVar, idx int, qv, bv string, ex c07Extra) (
 	return c, nil
 }
 
-const ruleC07 = "every rule of the C03 catalogue with at least one path variable (vf.Req, ComplexRequest and the real larking.testpb annotations incl. Files.UploadDownload; top-level, nested and doubly nested fields; typed, enum, oneof and well-known-type variables; body '*', body <field>, no body). For every variable and several captures: competing, different values for the same field through the query string (proto name, JSON name, the key twice, before / after another key) and / or the body (JSON, protobuf, gzip JSON; body '*' or a body field that contains the variable), all combinations. In addition, for every variable on a nested field: 1-3 query parameters on same-typed sibling sub-messages (vf.Req sub / osub, ComplexRequest nested / oneof_nested; the sibling's field of the same name first) before / after the competing key, x query x body competitors; and for every variable: a repeated query field of 10, 63, 64, 65, 200, 1000 elements next to the competitors. These requests are served 4 times each (query parameters are applied in map order). Oracle: the handler's value of the field equals the protojson value of the path capture, and - for the cases with non-competing parameters on rules without body '*' - the whole message equals the capture(s) plus every parameter the client sent; a request rejected with an error status is allowed. Also 13, 14, 20 and 40 URL parameters on distinct keys (one naming the bound field), each request served 20 times. The catalogue includes constant variables ({f=lit}, {f=lit/lit}, typed {f=true}, {e=RED}, the real Messaging.Action {text=action}) and variables of every scalar kind and bytes (top-level and nested) on rules that map a body; bytes captures are spelled std / url-safe, padded / unpadded; bodies carry the competing value or do not name the field at all, with fillers of 0-6000 bytes. WebSocket transport (real loopback listener through larking.NewServer): websocket-kind bindings on bidi methods (vf.Req top-level / nested / typed / bytes / multi-segment variables, body '*' and body field; the real testpb ChatRoom.Chat) with the competing value in the query string, in the first frame and / or in later frames (1-3 frames, each acknowledged by the handler): the first message the handler receives must carry the capture. distinct = (rule, variable, query variant, body variant, sibling / list-size variant | websocket frame variant) of dispatched requests that kept the capture"
+const ruleC07 = "every rule of the C03 catalogue with at least one path variable (vf.Req, ComplexRequest and the real larking.testpb annotations incl. Files.UploadDownload; top-level, nested and doubly nested fields; typed, enum, oneof and well-known-type variables; body '*', body <field>, no body). For every variable and several captures: competing, different values for the same field through the query string (proto name, JSON name, the key twice, before / after another key) and / or the body (JSON, protobuf, gzip JSON; body '*' or a body field that contains the variable), all combinations. In addition, for every variable on a nested field: 1-3 query parameters on same-typed sibling sub-messages (vf.Req sub / osub, ComplexRequest nested / oneof_nested; the sibling's field of the same name first) before / after the competing key, x query x body competitors; and for every variable: a repeated query field of 10, 63, 64, 65, 200, 1000 elements next to the competitors. These requests are served 4 times each (query parameters are applied in map order). Oracle: the handler's value of the field equals the protojson value of the path capture, and - for the cases with non-competing parameters on rules without body '*' - the whole message equals the capture(s) plus every parameter the client sent; a request rejected with an error status is allowed. Streaming HTTP rules (HttpBody uploads on client-streaming and bidi methods incl. the real Files.LargeUploadDownload, server-streaming downloads) run the query matrix with every way the handler can obtain the first message (stream.Recv looping to EOF, larking.AsHTTPBodyReader; replies through stream.Send and larking.AsHTTPBodyWriter). The body competitor also comes as application/x-www-form-urlencoded (with / without charset), multipart/form-data, text/plain and application/json; charset=utf-8: whatever the tree accepts must not override the path, a refusal is no claim. Also 13, 14, 20 and 40 URL parameters on distinct keys (one naming the bound field), each request served 20 times. The catalogue includes constant variables ({f=lit}, {f=lit/lit}, typed {f=true}, {e=RED}, the real Messaging.Action {text=action}) and variables of every scalar kind and bytes (top-level and nested) on rules that map a body; bytes captures are spelled std / url-safe, padded / unpadded; bodies carry the competing value or do not name the field at all, with fillers of 0-6000 bytes. WebSocket transport (real loopback listener through larking.NewServer): websocket-kind bindings on bidi methods (vf.Req top-level / nested / typed / bytes / multi-segment variables, body '*' and body field; the real testpb ChatRoom.Chat) with the competing value in the query string, in the first frame and / or in later frames (1-3 frames, each acknowledged by the handler): the first message the handler receives must carry the capture. distinct = (rule, variable, query variant, body variant, sibling / list-size variant | websocket frame variant) of dispatched requests that kept the capture"
 
 // RunC07 is the path-bound-fields-are-authoritative check.
 func RunC07(r *mon.Run) {
@@ -556,6 +622,19 @@ func RunC07(r *mon.Run) {
 	g := &gen{r: r, rng: r.Rand("c07")}
 	dyn, real := requestRules()
 	real = append(real, pbRule("Files", "UploadDownload", "UploadFileRequest", "google.api.HttpBody", "POST", "/files/{filename}", "file"))
+	// streaming HTTP rules: HttpBody uploads (the handler reads the first
+	// message with stream.Recv or larking.AsHTTPBodyReader) and downloads
+	// (stream.Send or larking.AsHTTPBodyWriter)
+	large := pbRule("Files", "LargeUploadDownload", "UploadFileRequest", "google.api.HttpBody", "POST", "/files/large/{filename}", "file")
+	large.Stream = "bidi"
+	real = append(real, large)
+	dyn = append(dyn,
+		RuleSpec{ID: "vf:stream-upload-client", In: "vf.Upload", Out: "vf.Rsp", Verb: "POST", Tmpl: "/u1/{name}", Body: "file", Stream: "client"},
+		RuleSpec{ID: "vf:stream-upload-typed", In: "vf.Upload", Out: "vf.Rsp", Verb: "PUT", Tmpl: "/u2/{name}/{n}", Body: "file", Stream: "client"},
+		RuleSpec{ID: "vf:stream-upload-bidi", In: "vf.Upload", Out: "google.api.HttpBody", Verb: "POST", Tmpl: "/u3/{name=files/*}", Body: "file", Stream: "bidi"},
+		RuleSpec{ID: "vf:stream-download", In: "vf.Req", Out: "google.api.HttpBody", Verb: "GET", Tmpl: "/d1/{a}/{sub.a}", Stream: "server"},
+		RuleSpec{ID: "vf:stream-server-rsp", In: "vf.Req", Out: "vf.Rsp", Verb: "GET", Tmpl: "/d2/{n}/{sub.deep.s}", Stream: "server"},
+	)
 	envD, err := buildDynamic(dyn, "")
 	if err != nil {
 		r.Inconclusive("harness: " + err.Error())
@@ -598,7 +677,18 @@ func RunC07(r *mon.Run) {
 						if qv == "none" && bv == "none" {
 							continue
 						}
-						do(g.c07Case(p, v, idx, qv, bv, c07Extra{}))
+						modes := []string{""}
+						if ms, ok := c07StreamModes[rule.Stream]; ok {
+							modes = ms
+						}
+						for _, mode := range modes {
+							c, err := g.c07Case(p, v, idx, qv, bv, c07Extra{})
+							if c != nil && mode != "" {
+								c.Handler = mode
+								c.Via += ",handler=" + mode
+							}
+							do(c, err)
+						}
 					}
 				}
 			}
